@@ -478,7 +478,9 @@ def _check_tag_selection(shape, res, tname, tag, tagged):
       res.violation('C15/tag-iterate-values/kept-selection-after-attaching',
                     f'{case}: yielded {got2!r} expected {exp2!r}', case)
       continue
-    before_detached = canon.canon_cfg(detached) if isinstance(
+    own = lambda n: tuple(sorted((str(k_), id(v_))
+                                 for k_, v_ in n.__arguments__.items()))
+    before_detached = own(detached) if isinstance(
         detached, fdl.Buildable) and not any(
             detached is n for n in buildables(cfg)) else None
     sel.replace('R2')
@@ -486,8 +488,7 @@ def _check_tag_selection(shape, res, tname, tag, tagged):
       res.violation('C15/tag-replace/kept-selection-after-attaching',
                     f'{case}: {cfg!r}', case)
       continue
-    if before_detached is not None and canon.canon_cfg(
-        detached) != before_detached:
+    if before_detached is not None and own(detached) != before_detached:
       res.violation('C15/tag-replace/detached-node-overwritten',
                     f'{case}: {detached!r}', case)
 
